@@ -2,7 +2,7 @@
 from contracts import rt_transform, rt_objects
 from pyvc.report import Report
 from pyvc.rtver import RtCx
-from .common import run_rt
+from .common import run_rt, dependency_layer
 from . import wiring
 
 
@@ -26,4 +26,5 @@ def run(tier, seed):
     rep.assumptions.append('ParsedObject._replace enters _transform by its contract, which is discharged in this check as well; user callbacks are pure functions of their argument')
     rep.assumptions.append('"exactly once per occurrence, children before parents" for whole trees follows from the per-activation trace contract by induction on tree height (paper)')
     rep.assumptions.append('python == between objects is modelled as an unknown reflexive relation, `is` as identity: code that compares nodes with == instead of `is` cannot establish the contract')
+    dependency_layer(rep, tier)
     return rep.finish()
